@@ -210,9 +210,11 @@ impl<'a> CompiledPredicate<'a> {
                 low,
                 high,
             } => {
-                let val = self.eval_value(inner, row)?;
-                let low_val = self.eval_value(low, row)?;
-                let high_val = self.eval_value(high, row)?;
+                // a bound that cannot be evaluated (arithmetic over NULL yields None) is NULL:
+                // the other bound may still decide the result (x > high makes it FALSE)
+                let val = self.eval_value(inner, row).unwrap_or(Value::Null);
+                let low_val = self.eval_value(low, row).unwrap_or(Value::Null);
+                let high_val = self.eval_value(high, row).unwrap_or(Value::Null);
                 let side = |bound: &Value<'a>, reject: std::cmp::Ordering| -> Option<bool> {
                     if matches!(val, Value::Null) || matches!(bound, Value::Null) {
                         return None;
